@@ -138,6 +138,11 @@ def check_genbank(spec, ctx):
             for f, (etype, eb, es, eq, kind, src) in zip(rec.features, exp):
                 for k, v in eq.items():
                     ctx.eq("qualifier[%s]:%s:%s" % (flavor, etype, k), f.qualifiers.get(k), v)
+                # ... and no identifier the source member does not have (e.g. one leaking over from a sibling isoform)
+                if kind in ("tx", "cds"):
+                    for k in ("transcript_id", "transcript_name") + (("protein_id",) if kind == "cds" else ()):
+                        if k not in eq and k not in (src.get("qualifiers") or {}):
+                            ctx.eq("absent_identifier_not_invented[%s]:%s:%s" % (flavor, etype, k), f.qualifiers.get(k), None)
                 if etype != "CDS":
                     ctx.true("no_protein_id_outside_cds", "protein_id" not in f.qualifiers, etype)
                     ctx.true("no_translation_outside_cds", "translation" not in f.qualifiers, etype)
@@ -158,6 +163,10 @@ def check_genbank(spec, ctx):
                     if "translation" in (t.get("qualifiers") or {}):
                         ctx.label("stale_translation_qualifier")
             if translations:
+                continue
+            if any(len(gn["transcripts"]) > 1 for gn in genes):
+                # (b)/(c) are claimed for one gene model per gene (isoforms sharing a start cannot be paired by feature order)
+                ctx.label("multi_isoform_gene")
                 continue
             # (b) BioCantor's parsers, (c) mode agreement
             parsed = {}
@@ -216,13 +225,15 @@ def strat_genbank(draw, tier="quick"):
     for i in range(ng):
         strand = draw(st.sampled_from(["+", "-"]))
         coding = draw(st.sampled_from([True, True, False]))
-        ntx = 1  # one transcript per gene: GenBank groups isoforms by feature order only (see assumptions)
+        # mostly one transcript per gene (the re-parse clauses need that, see assumptions); isoform sets for the writer clauses
+        ntx = draw(st.sampled_from([1, 1, 1, 2, 3]))
         txs = []
         for j in range(ntx):
-            t = draw(S.transcript_spec(max_exons=3, max_len=9, strand=strand, coding=coding, zero_gap_cds=False, frameshift_prob=0, start_min=cursor, start_max=2))
+            t = draw(S.transcript_spec(max_exons=3, max_len=9, strand=strand, coding=coding if ntx == 1 else draw(st.sampled_from([coding, coding, not coding])), zero_gap_cds=False, frameshift_prob=0, start_min=cursor, start_max=2))
+            coding_t = "cds" in t
             t["transcript_id"] = "g%dt%d" % (i, j)
             t["transcript_symbol"] = draw(st.one_of(st.none(), st.just("sym%d_%d" % (i, j))))
-            if coding:
+            if coding_t:
                 t["transcript_type"] = "protein_coding"
                 t["protein_id"] = draw(st.one_of(st.none(), st.just("prot%d_%d" % (i, j))))
                 if draw(st.integers(0, 3)) == 0:
@@ -235,8 +246,15 @@ def strat_genbank(draw, tier="quick"):
             if not t.pop("_keep_q", False):
                 t["qualifiers"] = draw(S.simple_qualifiers(1))
             txs.append(t)
-        if ntx == 2 and json.dumps([txs[0]["exons"], txs[0].get("cds")]) == json.dumps([txs[1]["exons"], txs[1].get("cds")]):
-            txs.pop()
+        seen_ = set()
+        uniq = []
+        for t in txs:
+            key_ = json.dumps([t["exons"], t.get("cds")])
+            if key_ not in seen_:
+                seen_.add(key_)
+                uniq.append(t)
+        txs = uniq
+        coding = any("cds" in t for t in txs)
         hi = max(t["exons"][-1][1] for t in txs)
         genes.append({"transcripts": txs, "gene_id": draw(st.one_of(st.none(), st.just("gid%d" % i))), "gene_symbol": "GENE%d" % i,
                       "gene_type": "protein_coding" if coding else txs[0]["transcript_type"], "locus_tag": draw(st.one_of(st.none(), st.just("LT_%03d" % i))),
@@ -264,7 +282,7 @@ PROP = Prop(
     pid="C12",
     legs=[
         Leg("genbank", check_genbank, strategy=strat_genbank, n_quick=150, n_thorough=1500, shards_quick=8,
-            must_hit=["minus&multi_exon", "offset!=0", "noncoding", "two_genes_touching", "translation_checked", "stale_translation_qualifier"],
+            must_hit=["minus&multi_exon", "offset!=0", "noncoding", "two_genes_touching", "translation_checked", "stale_translation_qualifier", "multi_isoform_gene"],
             rule="1..4 single-strand genes at increasing positions (adjacent genes possible), 1..2 isoforms, coding (offset 0/1/2, one reading frame) or non-coding (ncRNA/tRNA/rRNA/misc_RNA/tmRNA/lncRNA), unique symbols and locus tags, optional feature collection; x flavour {prokaryotic, eukaryotic} x update_translations x parser mode {sorted, locus-tag, hybrid}"),
     ],
     rule="Oracle: Bio.SeqIO (independent reader) for record types/blocks/strand/qualifiers, Bio codon table for /translation; source spec for the "
@@ -273,7 +291,7 @@ PROP = Prop(
         "runs through the Biopython compat shim (SeqFeature(strand=), .strand, nofuzzy_*): what Biopython <=1.79 would write for the same SeqFeatures is assumed identical",
         "CDS have one uninterrupted reading frame and no 0-bp-gap blocks (GenBank cannot carry either, documented by the parser)",
         "genes are position-sorted with unique locus tags (precondition of the mode-agreement clause)",
-        "one transcript per gene: the sorted parser re-sorts features by (start, type), so isoforms sharing a start cannot be told apart by order; the property quantifies over gene models, not isoform sets",
+        "re-parse and mode-agreement clauses: one transcript per gene (the sorted parser re-sorts features by (start, type), so isoforms sharing a start cannot be told apart by order); the writer clauses (independent reader) also cover genes with 2-3 isoforms, coding and non-coding mixed",
     ],
     predicates={"f20": pred_f20},
 )
